@@ -66,6 +66,8 @@ def explore(run, bounds, max_execs=None, alt_filter=None, max_branch_point=150, 
         n_exec += 1
         yield prefix, ch, result
         if max_execs and n_exec >= max_execs:
+            if stats is not None and stack:
+                stats["explorations_cut_by_execution_cap"] = stats.get("explorations_cut_by_execution_cap", 0) + 1
             return
         trace = ch.trace
         dev = {}
